@@ -1,12 +1,13 @@
 """C17 - no request is evaluated before the client's identity is established."""
 import multiprocessing
 
-from .. import common, tlc, absmap as A, engdrv as D, engcheck as E, sessdrv as S
+from .. import common, tlc, absmap as A, engdrv as D, engcheck as E, sessdrv as S, sesstrace as ST
 
 LEVEL = "model_checking"
 # "lookalike": extended key usages whose dotted OIDs merely resemble clientAuth (1.3.6.1.5.5.7.3.2)
 EKU = {"absent": "absent", "other": "other", "client": "client",
-       "lookalike": ["1.3.6.1.5.5.7.3.21", "1.3.6.1.5.5.7.3.20", "1.3.6.1.5.5.7.3.1"]}
+       "lookalike": ["1.3.6.1.5.5.7.3.21", "1.3.6.1.5.5.7.3.20", "1.3.6.1.5.5.7.3.1"],
+       "any": ["2.5.29.37.0", "1.3.6.1.5.5.7.3.1"]}
 
 
 def plugin_settings(plugins):
@@ -39,12 +40,14 @@ def _rows(chunk):
             cfg = row["cfg"]
             cert = None if cfg["cert"] == "absent" else S.make_cert({"cn0": 0, "cn1": 1, "cn2": 2}[cfg["cert"]], EKU[cfg["eku"]])
             settings, behaviour = plugin_settings(cfg["plugins"])
-            spy = S.EngineSpy(drv.engine)
-            conn = S.FakeConn(valid if cfg["req"] == "valid" else bad, cert=cert)
+            data = valid if cfg["req"] == "valid" else bad
+            conn = S.FakeConn(data, cert=cert)
+            spy = S.EngineSpy(drv.engine, log=conn.log)
             before = drv.state()
             escaped = S.run_session(spy, conn, tls_client_auth=cfg["tlsauth"], auth_settings=settings,
-                                    slugs=S.Slugs(behaviour))
+                                    slugs=S.Slugs(behaviour, log=conn.log))
             after = drv.state()
+            trace = ST.make("r%d" % row["n"], cfg, data, cfg["plugins"], conn, intern)
             reason, status, ver = "", "", None
             nresp = len(conn.sent)
             if nresp >= 1:
@@ -57,7 +60,7 @@ def _rows(chunk):
             ident = spy.calls[0] if spy.calls else None
             out.append({"cfg": cfg, "called": len(spy.calls), "user": ident[0] if ident else "",
                         "groups": (list(ident[1]) if ident[1] is not None else ["-nogroups-"]) if ident else ["-nogroups-"],
-                        "reason": reason, "status": status, "nresp": nresp, "escaped": escaped, "ver": ver,
+                        "reason": reason, "status": status, "nresp": nresp, "escaped": escaped, "ver": ver, "trace": trace,
                         "changed": len(after["objs"]) != len(before["objs"]) or after["seq"] != before["seq"]})
     finally:
         drv.close()
@@ -82,6 +85,7 @@ def _seq_rows(chunk):
             slugs = S.Slugs(dict(behaviour))
             spy = S.EngineSpy(drv.engine)
             conn = S.Connection(spy, cert, tls_client_auth=True, auth_settings=settings)
+            spy.log = slugs.log = conn.conn.log
             old = slugs_mod.requests.get
             slugs_mod.requests.get = slugs
             obs = []
@@ -107,7 +111,9 @@ def _seq_rows(chunk):
                                 "changed": len(after["objs"]) != len(before["objs"]) or after["seq"] != before["seq"]})
             finally:
                 slugs_mod.requests.get = old
-            out.append({"seq": seq, "obs": obs})
+            trace = ST.make("s%d" % seq[0]["n"], {"cert": "cn1", "eku": "client", "tlsauth": True}, valid * len(seq),
+                            [r["cfg"]["plugins"] for r in seq], conn.conn, drv.intern, eof=False)
+            out.append({"seq": seq, "obs": obs, "trace": trace})
     finally:
         drv.close()
     return out
@@ -122,6 +128,8 @@ def sequences(run, quick):
     seqs = res.tag("SEQ")
     if len(seqs) != res.distinct:
         raise common.MachineryFailure("MC_C17Seq: %d rows printed for %d sequences" % (len(seqs), res.distinct))
+    for i, q in enumerate(seqs):
+        q[0]["n"] = i
     if quick:
         # all single-plugin pairs, every 5th two-plugin pair
         seqs = [q for i, q in enumerate(seqs) if len(q[0]["cfg"]["plugins"]) == 1 or i % 5 == 0]
@@ -129,6 +137,7 @@ def sequences(run, quick):
     with multiprocessing.Pool(n) as pool:
         outs = pool.map(_seq_rows, [seqs[i::n] for i in range(n)])
     nrun = 0
+    ST.judge(run, [o["trace"] for out in outs for o in out], name="c17seq", owners=("C17",))
     for out in outs:
         for o in out:
             for i, (row, ob) in enumerate(zip(o["seq"], o["obs"])):
@@ -178,6 +187,8 @@ def check(run, tier):
     rows = res.tag("ROW")
     if len(rows) != res.distinct:
         raise common.MachineryFailure("MC_C17: %d rows printed for %d configurations" % (len(rows), res.distinct))
+    for i, row in enumerate(rows):
+        row["n"] = i
     # certificates are generated once, before forking
     for ncn in (0, 1, 2):
         for eku in EKU.values():
@@ -190,6 +201,8 @@ def check(run, tier):
     for row in rows:
         by[common.jdump(row["cfg"])] = row
     nrun = 0
+    # every run as an event trace against the small-step session machine (SessionLoop.tla)
+    ST.judge(run, [o["trace"] for out in outs for o in out], name="c17", owners=("C17",))
     for out in outs:
         for o in out:
             nrun += 1
